@@ -1029,9 +1029,8 @@ class sptensor:
             return C
 
         if isinstance(other, ttb.tensor):
-            BB = sptensor(self.subs, other[self.subs][:, None], self.shape)
-            C = self.logical_and(BB)
-            return C
+            # Only the nonzeros of the dense operand count
+            return self.logical_and(other.to_sptensor())
 
         # Otherwise
         assert False, "The arguments must be two sptensors or an sptensor and a scalar."
